@@ -2,6 +2,7 @@ package main
 
 import (
 	"fmt"
+	"math/big"
 	"math/rand"
 	"strconv"
 	"strings"
@@ -124,7 +125,8 @@ func genPoolMoney(r *rand.Rand, idx int, emit func(string)) {
 func genPoolBilling(r *rand.Rand, idx int, emit func(string)) {
 	g := &pg{r: r, emit: emit}
 	interval := []int64{minute, int64(time.Second), 1, 7}[r.Intn(4)]
-	g.cfg(pick(r, poolPrices), interval, "off", 0, "off", "off", true)
+	price := pick(r, append(poolPrices, "1000000000", "1000000000000", "123456789", "4294967296", "9223372036854775807", "18446744073709551615"))
+	g.cfg(price, interval, "off", 0, "off", "off", true)
 	hosts := []string{"n0", "n1", "n2"}[:1+r.Intn(3)]
 	for i, h := range hosts {
 		g.host(h, "c"+strconv.Itoa(i), "2.2.2."+strconv.Itoa(i), "geth")
@@ -154,6 +156,23 @@ func genPoolBilling(r *rand.Rand, idx int, emit func(string)) {
 	n := 2 + r.Intn(6)
 	for i := 0; i < n; i++ {
 		el := elapsedGrid[r.Intn(len(elapsedGrid))]
+		if r.Intn(3) == 0 {
+			// elapsed chosen so that elapsed × price lands next to a power of two (where fixed-width arithmetic
+			// would wrap or change sign): 2^31, 2^32, 2^53, 2^62 … 2^65, 2^127, 2^128
+			if pr, ok := new(big.Int).SetString(price, 10); ok && pr.Sign() > 0 {
+				k := []uint{31, 32, 53, 62, 63, 63, 64, 64, 65, 127, 128}[r.Intn(11)]
+				q := new(big.Int).Lsh(big.NewInt(1), k)
+				q.Div(q, pr)
+				q.Add(q, big.NewInt(int64(r.Intn(5)-2)))
+				if r.Intn(2) == 0 {
+					// somewhere inside the band [2^k, 2^(k+1))
+					q.Add(q, new(big.Int).Div(new(big.Int).Mul(q, big.NewInt(int64(r.Intn(100)))), big.NewInt(100)))
+				}
+				if q.IsInt64() && q.Sign() > 0 {
+					el = q.Int64()
+				}
+			}
+		}
 		// the client's previous check-in is set to `start`, the manager's clock to start+el
 		emit(fmt.Sprintf("setnode n7 %s 0 geth ~ ~ 1", TTok(start)))
 		g.update("n7", "good", peers, satAdd(start, el))
